@@ -7,6 +7,7 @@ import PowHsm.Proofs.Monad
 import PowHsm.Proofs.Admin
 import PowHsm.Proofs.AdminServe
 import PowHsm.Proofs.AdminChange
+import PowHsm.Proofs.AdminKeys
 namespace PowHsm
 namespace Props.C18
 open Admin Ledger Generated M
@@ -141,6 +142,27 @@ example :
     (doChangePin o w).evs.all notChange = false ∧
     apdus (doChangePin o w).evs = [[0x80, 0x43], [0x80, 0xA5, 0, 0x61, 0x62, 0x63, 0x64, 0x31, 0x32, 0x33, 0x34]] := by
   decide +kernel
+
+/-- **the public keys written to disk are the device's keys for the six documented paths**: whenever
+    `do_get_pubkeys` ends normally — for every device behaviour and every operator script — its last
+    exchanges are GET_PUBLIC_KEY for the six documented paths in the documented order (btc, rsk, mst, tbtc,
+    trsk, tmst), followed only by the disconnection, and the six keys handed to the output files are the
+    device's answers to exactly those six messages: `w1` is the world the preparation (unlock, wait,
+    connect, mode check) leaves, and its script starts with the six keys (`Proofs/AdminKeys.lean`; the
+    re-encoding of each key for the files is python-ecdsa's, an input of the model) -/
+theorem pubkeys_are_device_keys (o : Options) (w : World) (ks : List Bytes)
+    (h : (doGetPubkeys o some w).val = .ok ks) :
+    ∃ (pre : List Ev) (w1 : World) (rest : List Resp),
+      (doGetPubkeys o some w).evs = pre ++ docPaths.map (fun p => Ev.apdu (keyMsg p)) ++ [.disconnect] ∧
+      (pubkeysPrepare o w).evs = pre ∧ (pubkeysPrepare o w).w = w1 ∧
+      w1.script = ks.map Resp.data ++ rest ∧ ks.length = 6 :=
+  Admin.pubkeys_are_device_keys o w ks h
+
+/-- the six messages are the documented paths, as the firmware reads them (m/44'/0'/0'/0/0 first) -/
+example : (docPaths.map keyMsg).length = 6 ∧
+    docPaths.head? = some [0x8000002C, 0x80000000, 0x80000000, 0, 0] ∧
+    keyMsg [0x8000002C, 0x80000000, 0x80000000, 0, 0] =
+      [0x80, 0x04, 5, 0x2c, 0, 0, 0x80, 0, 0, 0, 0x80, 0, 0, 0, 0x80, 0, 0, 0, 0, 0, 0, 0, 0] := by decide +kernel
 
 /-- **when the preconditions hold the operation is carried out** (onboarding, Ledger): against a
     device in bootloader mode that echoes correctly and is not yet onboarded, with an operator who
